@@ -1059,7 +1059,7 @@ func c01ScanErrorBinding(c *Ctx, ro *ParserRoles) {
 		}
 		c.R.Check(rule, "forwarder:"+c.P.FuncKey(f), c.P.Pos(f.Pos()), dyn != nil && !skippable, "with a handler installed, every call of this scanner error method must reach the handler")
 	}
-	c.R.Check(rule, "forwarders-found", "-", n >= 2, "expected the scanner's two error-reporting methods")
+	c.R.Check(rule, "forwarders-found", "-", n >= 1, "expected at least one scanner error-reporting method forwarding to the handler")
 	// the handler field is not overwritten with nil while parsing
 	for _, f := range ro.Reach.Order {
 		instrs(f, func(b *ssa.BasicBlock, i int, in ssa.Instruction) {
